@@ -331,6 +331,17 @@ bool splinetable<Alloc>::read_fits_core(fitsfile* fits, const std::string& fileP
 		if(naxes_temp[i]<0)
 			throw std::runtime_error("Invalid size in dimension "+std::to_string(i));
 	}
+	//The axis lengths come from the file: their product has to be a number of
+	//coefficients that can be counted (and addressed), or the array allocated
+	//below is smaller than the axes say
+	{
+		uint64_t total=1;
+		for(size_t i=0; i<ndim; i++){
+			if(naxes_temp[i]!=0 && total>(UINT64_MAX/sizeof(float))/(uint64_t)naxes_temp[i])
+				throw std::runtime_error("Coefficient array is too large");
+			total*=(uint64_t)naxes_temp[i];
+		}
+	}
 	naxes = allocate<uint64_t>(ndim);
 	
 	
